@@ -27,10 +27,10 @@ def run(ctx):
             return "parked"
         if mentions(a, "get_pending_tx"):
             return None
+        if mentions(a, "get_info_from_raw_tx") and mentions(a, ".nonce"):
+            return "nonce"        # (tested first: `tx.nonce.filter(|n| *n != account_nonce)` mentions the account nonce in its closure)
         if mentions(a, "get_account_nonce"):
             return "acct"
-        if mentions(a, "get_info_from_raw_tx") and mentions(a, ".nonce"):
-            return "nonce"
         if a[0] == "param" and a[2] == "block_number" or (a[0] == "param" and a[1] == 5):
             return "block"
         return None
